@@ -459,6 +459,15 @@ def case_parts(ctx, kind, case_seed):
 
 
 def run_case(ctx, t):
+    H.FORCE.clear()
+    H.FORCE.update(t.get("force", []))
+    try:
+        return _run_case(ctx, t)
+    finally:
+        H.FORCE.clear()
+
+
+def _run_case(ctx, t):
     c = t["case"]
     if c == "parts":
         return case_parts(ctx, t["kind"], t["case_seed"])
@@ -515,7 +524,7 @@ def run(ctx):
     import molli as ml  # noqa: F401
 
     ctx.rule = ("random source objects (1..6 atoms, random bonds, elements, labels, isotopes, formal charges, nested attribute "
-                "dictionaries on molecule / atoms / bonds up to depth 3, coordinates, partial charges, weights; 12% dendrobine) of "
+                "dictionaries on molecule / atoms / bonds up to depth 3 incl. one container referenced from several places, every field of atoms and bonds over its whole enum incl. falsy non-default values, duplicate and empty labels; bond graphs are random MULTIGRAPHS built through connect / append_bond / append_bonds / extend_bonds: atoms without bonds, 2..3 bonds between one pair in either orientation, a bond from an atom to itself, no atoms at all; coordinates, partial charges, weights; 12% dendrobine) of "
                 "each of the 7 kinds x {copy constructor, pickle (protocols 2..5), deepcopy, copy.copy (source only)}; the copy "
                 "constructor of every class applied to every kind (42 source/target pairs) with 0..2 of the keyword overrides name, "
                 "charge (incl. 0), mult, attrib, coords, atomic_charges, weights, n_conformers, copy_atoms, n_atoms; Cls(list of atoms, "
@@ -567,6 +576,8 @@ def run(ctx):
         if len(ctx.samples) < 4 and nontrivial and src == "rand" and t["case"] != "copy":
             ctx.sample({"case": tag, "request": (line or "")[:400]})
 
+    for k, v in H.FEATURES.items():
+        ctx.count(k, v)
     outs = ctx.driver([c[0] for c in cases])
     for (line, obs, shared, tag), mout in zip(cases, outs):
         parts = dict(p.split("=", 1) for p in mout.split("#")) if "#" in mout else {}
